@@ -942,7 +942,9 @@ func rulesC02(c *Ctx) {
 		return strings.HasPrefix(k, "startPOST") || strings.HasPrefix(k, "endPOST") || strings.HasPrefix(k, "idle-timer")
 	})
 
-	c.Import("R-C02-14", "a refused POST leaves nothing behind: the ids of a batch are registered only after all of them were found free (a half-registered batch makes later, legitimate calls with those ids unanswerable)", "C10", "R-C10-3", func(k string) bool { return strings.HasPrefix(k, "servePOST:no-partial") || strings.HasPrefix(k, "servePOST:duplicate") || strings.HasPrefix(k, "servePOST:dup-scan") })
+	c.Import("R-C02-14", "a refused POST leaves nothing behind: the ids of a batch are registered only after all of them were found free (a half-registered batch makes later, legitimate calls with those ids unanswerable)", "C10", "R-C10-3", func(k string) bool {
+		return strings.HasPrefix(k, "servePOST:no-partial") || strings.HasPrefix(k, "servePOST:duplicate") || strings.HasPrefix(k, "servePOST:dup-scan")
+	})
 	c.Import("R-C02-10", "malformed per-request metadata is answered with an error, not with a crash of the handler goroutine: a null _meta entry does not count as present", "C06", "R-C06-2", func(k string) bool { return strings.HasPrefix(k, "decodeMetaValue") })
 
 	c.Rule("R-C02-8", "on the streamable server a logical stream outlives every call of its POST: each response of a batch still finds its stream (shared with R-C08-6)", func() { streamBookkeepingRule(c) })
